@@ -70,7 +70,7 @@ def check_latent(case):
         for label, arg, expect_ in forms:
             got = call(fn, arg)
             require(not is_raised(got), "%s(%r as %s) raised %r", name, ti, label, got)
-            got_l = [float(v) for v in numpy.atleast_1d(got)]
+            got_l = [float(v) for v in numpy.ravel(got)]
             exp_l = expect_ if isinstance(expect_, list) else [expect_]
             tol_ = 1e-12
             require(len(got_l) == len(exp_l) and all(abs(g - e) <= tol_ * max(abs(e), 1e-300) for g, e in zip(got_l, exp_l)),
@@ -82,7 +82,7 @@ def check_latent(case):
         second = call(fn, buf)
         want = [float(fn(float(ti) + 15.0)), float(fn(ti + 16.0))]
         require(not is_raised(first) and not is_raised(second) and
-                all(abs(float(g) - e) <= 1e-12 * max(abs(e), 1e-300) for g, e in zip(numpy.atleast_1d(second), want)),
+                numpy.shape(second) == (2,) and all(abs(float(g) - e) <= 1e-12 * max(abs(e), 1e-300) for g, e in zip(second, want)),
                 "%s called again with the same array object refilled in place (+15 K) gives %r, scalar calls give %r (%s constants)",
                 name, second, want, vp.type)
     return {"nontrivial": abs(float(h)) > 1.0, "classes": [vp.type, "builtin" if "builtin" in case["component"] else "random"],
@@ -139,7 +139,7 @@ def check_cooling(case):
 
     a0, a1 = numpy.array([t0, t2]), numpy.array([t1, t1])
     qa = call(comp.get_cooling_heat, a0, a1)
-    require(not is_raised(qa), "get_cooling_heat with array temperatures raised %r", qa)
+    require(not is_raised(qa) and numpy.shape(qa) == (2,), "get_cooling_heat with arrays of 2 temperatures gives %r", qa)
     require(a0[0] == t0 and a0[1] == t2 and a1[0] == t1 and a1[1] == t1, "get_cooling_heat modified its array arguments: %r, %r", a0, a1)
     require(abs(float(qa[0]) - q01) <= tol and abs(float(qa[1]) - q(t2, t1)) <= 1e-12 * scale(t2, t1) + 1e-300,
             "get_cooling_heat with array temperatures gives %r, scalar calls give %r, %r", qa, q01, q(t2, t1))
@@ -155,7 +155,7 @@ def check_cooling(case):
     call(comp.get_cooling_heat, buf, low)
     buf += 7.0
     qc = call(comp.get_cooling_heat, buf, low)
-    require(not is_raised(qc) and abs(float(qc[0]) - q(t0 + 7.0, t1)) <= 1e-12 * scale(t0 + 7.0, t1) + 1e-300
+    require(not is_raised(qc) and numpy.shape(qc) == (2,) and abs(float(qc[0]) - q(t0 + 7.0, t1)) <= 1e-12 * scale(t0 + 7.0, t1) + 1e-300
             and abs(float(qc[1]) - q(t2 + 7.0, t1)) <= 1e-12 * scale(t2 + 7.0, t1) + 1e-300,
             "get_cooling_heat called again with the same array object refilled in place gives %r, scalar calls give %r, %r",
             qc, q(t0 + 7.0, t1), q(t2 + 7.0, t1))
